@@ -203,7 +203,7 @@ func idlPoolLayouts() (lays []layouter, names []string) {
 			names = append(names, gapClassNames[c]+"-"+idlAtomNames[a])
 		}
 	}
-	for _, c := range []int{gapBeforeInterface, gapAfterIfaceName, gapBetweenMembers} {
+	for _, c := range []int{gapBeforeInterface, gapAfterIfaceName, gapBetweenMembers, gapErrorType} {
 		for k, s := range idlDocGaps {
 			if c == gapBeforeInterface {
 				s = strings.TrimPrefix(s, "\n")
@@ -212,18 +212,74 @@ func idlPoolLayouts() (lays []layouter, names []string) {
 			names = append(names, fmt.Sprintf("%s-doc%d", gapClassNames[c], k))
 		}
 	}
+	// members that share a line: directly behind the previous member (a blank is inserted only where two words
+	// would merge), and behind every layout in front of an error's parameter list
+	lays = append(lays, poolLayout{class: gapBetweenMembers, text: ""})
+	names = append(names, "g3-none")
+	for k, s := range []string{"\n", "\r\n", " # c\n", "\n# c\n", "\n# c\n\t", "\r", "\n\n# a\n# b\n", "#\n"} {
+		for j, m := range []string{"", " ", "\t# t\n# d\n"} {
+			lays = append(lays, pairLayout{c1: gapErrorType, t1: s, c2: gapBetweenMembers, t2: m})
+			names = append(names, fmt.Sprintf("g6g3-%d.%d", k, j))
+		}
+	}
+	// the end of the text, in particular behind an error without parameters
+	for k, s := range []string{"", " ", "\t", "\r", "\n", "\r\n", "\n  ", " # c\n", "\n# c\n"} {
+		for j, c := range idlFinalComments[2:] {
+			lays = append(lays, endLayout{gapText: s, comment: c})
+			names = append(names, fmt.Sprintf("g11end-%d.%d", k, j))
+		}
+	}
 	return
 }
 
 var idlFinalComments = []string{"", "", "", "#", "# x", "#x", "# ", "#\r", "# end\r"}
 
-func idlGenCase(e *env, i int, g *Rng, small []*gIdl, lays []layouter, layNames []string, perTree int) (string, *gIdl, []string) {
+// idlErrorCases: every member-kind sequence of length ≤ 3 that contains an error (with or without parameters)
+// under every layout of the pool that touches the surroundings of an error: the gap in front of the parameter
+// list (G6), the gap in front of the next member (G3), the end of the text (G11, last comment). Both tiers run
+// all of them.
+func idlErrorCases(small []*gIdl, layNames []string) (trees []*gIdl, layIdx []int) {
+	for _, d := range small {
+		hasErr := false
+		for _, m := range d.members {
+			if m.kind == 'R' {
+				hasErr = true
+			}
+		}
+		if hasErr && d.typeNodes() <= 4 {
+			trees = append(trees, d)
+		}
+	}
+	for i, n := range layNames {
+		for _, p := range []string{"g6-", "g6g3-", "g3-", "g11-", "g11end-"} {
+			if strings.HasPrefix(n, p) {
+				layIdx = append(layIdx, i)
+			}
+		}
+	}
+	return
+}
+
+func idlGenCase(e *env, i int, g *Rng, small []*gIdl, lays []layouter, layNames []string, perTree int, errTrees []*gIdl, errLays []int) (string, *gIdl, []string) {
 	nEnum := len(small) * perTree
+	nErr := len(errTrees) * len(errLays)
 	var d *gIdl
 	var lay layouter
 	var tags []string
 	final := ""
-	if i < nEnum {
+	if i >= nEnum && i < nEnum+nErr {
+		k := i - nEnum
+		src := errTrees[k/len(errLays)]
+		cp := *src
+		cp.members = append([]gMember{}, src.members...)
+		d = &cp
+		li := errLays[k%len(errLays)]
+		lay = lays[li]
+		if fc, ok := lay.(finalCommenter); ok {
+			final = fc.final()
+		}
+		tags = append(tags, "fam=errlay", "layout="+strings.SplitN(layNames[li], "-", 2)[0])
+	} else if i < nEnum {
 		// bounded-exhaustive trees, each under `perTree` pool layouts; the offsets rotate so that every layout
 		// of the pool meets many trees
 		ti, k := i/perTree, i%perTree
@@ -236,6 +292,9 @@ func idlGenCase(e *env, i int, g *Rng, small []*gIdl, lays []layouter, layNames 
 			li = (ti*(perTree-1) + k - 1) % len(lays)
 		}
 		lay = lays[li]
+		if fc, ok := lay.(finalCommenter); ok {
+			final = fc.final()
+		}
 		tags = append(tags, "fam=exh", "layout="+strings.SplitN(layNames[li], "-", 2)[0])
 	} else {
 		depth := 1 + g.Intn(3)
@@ -244,7 +303,7 @@ func idlGenCase(e *env, i int, g *Rng, small []*gIdl, lays []layouter, layNames 
 			depth, maxM = 5, 12
 		}
 		d = g.idlTree(maxM, depth)
-		rl := &randomLayout{g: g, density: g.Intn(7), crlf: g.Chance(1, 5), noDefect: g.Chance(3, 4)}
+		rl := &randomLayout{g: g, density: g.Intn(7), crlf: g.Chance(1, 5), inline: 1 + g.Intn(3)}
 		lay = rl
 		final = g.Pick(idlFinalComments)
 		tags = append(tags, "fam=rnd")
@@ -269,8 +328,9 @@ func init() {
 		if e.tier == "thorough" {
 			perTree = len(lays) + 1 // every small tree under every layout of the pool
 		}
+		errTrees, errLays := idlErrorCases(small, names)
 		return e.each(func(i int, g *Rng) error {
-			text, d, tags := idlGenCase(e, i, g, small, lays, names, perTree)
+			text, d, tags := idlGenCase(e, i, g, small, lays, names, perTree, errTrees, errLays)
 			fmt.Fprintln(e.out, idlLine(text, d, tags))
 			return nil
 		})
